@@ -230,6 +230,26 @@ def spec_C17(lines, ghost=None):
     if stack: bad.append("unbalanced enter/ret: %r" % (stack,))
     return bad
 
+def spec_C08(lines, ghost=None):
+    """A despawn reaction names a dead entity: if a body reads `dsp=X` and X is alive at the next quiescent snapshot
+    (entities are never resurrected), a despawn reactor ran for an entity that is alive."""
+    bad = []; pending = []
+    for i, l in enumerate(lines):
+        t = tok(l)
+        if t[0] == "body":
+            x = parse_obs(t[3:]).get("dsp", "-")
+            if x not in ("-", "", "?"): pending.append((i, t[1], x))
+        elif t[0] == "qa":
+            ebits = t[1] if len(t) > 1 else ""; sbits = t[2] if len(t) > 2 else ""
+            for (j, sysn, x) in pending:
+                bits = ebits if x[0] == "e" else sbits
+                try: k = int(x[1:])
+                except ValueError: continue
+                if k < len(bits) and bits[k] == "1":
+                    bad.append("line %d: %s ran a despawn reaction for %s, which is still alive at the next quiescent point" % (j, sysn, x))
+            pending = []
+    return bad
+
 def spec_C15(lines, ghost=None):
     return []
 
@@ -237,7 +257,7 @@ def spec_none(lines, ghost=None): return []
 
 SPECS = {
     "C01": [], "C02": [spec_C02], "C03": [spec_expect], "C04": [spec_C04, spec_expect], "C05": [spec_C05],
-    "C06": [], "C07": [], "C08": [], "C09": [spec_C02], "C10": [], "C11": [spec_C11, spec_C02],
+    "C06": [], "C07": [], "C08": [spec_C08], "C09": [spec_C02], "C10": [], "C11": [spec_C11, spec_C02],
     "C12": [spec_C12, spec_expect], "C13": [spec_C13], "C14": [spec_C14], "C15": [], "C16": [spec_expect], "C17": [spec_C17],
     "C18": [spec_C05, spec_C14],
 }
